@@ -94,14 +94,14 @@ theorem prepend_inv {f : Forest} (hi : f.Inv) (p c : Nat) : (f.prepend p c).1.In
         have hfc : f2.firstChild p = some n.handle := by rw [firstChild_eq hK, hn]; rfl
         have hnmem : n ∈ K.kids := by rw [← hsplit, hn]; simp
         have hnv := value?_of_mem_kids nd hK hnmem
-        refine ⟨?_, ?_⟩
-        · intro e; apply hfirst; rw [hfc, e]; simp
+        have hnc : n.handle ≠ c := by intro e; apply hfirst; rw [hfc, e]; simp
+        refine ⟨hnc, ?_⟩
         · cases hnt : n.value.isText with
           | false => rfl
           | true =>
             exfalso
             obtain ⟨s, hts⟩ := textOf_of_value? hnv hnt
-            have := addConsolidate_next_true none hcons hta hts
+            have := addConsolidate_next_true none hcons hta hts hnc
             rw [← hfc, h2] at this
             cases this
       rw [prependPoint_eq hK]
